@@ -26,6 +26,8 @@ func Dump(p *Prog, what string) {
 		os.Stdout.Write(PinnedTypesTable(p))
 	case what == "pinnedfields":
 		os.Stdout.Write(PinnedFieldsTable(p))
+	case what == "pinnedconfigkeys":
+		os.Stdout.Write(ConfigKeysTable(p))
 	case what == "renames":
 		for _, n := range RenameNotes {
 			fmt.Println(n)
